@@ -188,7 +188,7 @@ pub fn run_prop(a: &Args, prop: &str, pnum: u64) {
         let cfg = GenCfg { precs: rng.chance(1, 4), ..GenCfg::default() };
         if case % 8 == 5 {
             // same-core states that Pager must merge or keep apart (see C02)
-            let t = match rng.below(6) { 0 => grammar::pager_orphan_family(&mut rng), 1 | 2 | 3 => grammar::nullable_tail_family(&mut rng), _ => grammar::general_contexts(&mut rng) };
+            let t = match rng.below(8) { 0 => grammar::pager_orphan_family(&mut rng), 1 | 2 | 3 => grammar::nullable_tail_family(&mut rng), 4 | 5 => grammar::cascade_family(&mut rng), _ => grammar::general_contexts(&mut rng) };
             emit(&mut out, &mut worker, &t, &mut rng, a.thorough, "contexts", prop);
             continue;
         }
